@@ -17,6 +17,7 @@ TRUSTED_BASE = ['PackedNode.sort_key tuple, the max of ForestSumVisitor.visit_sy
                 'this model (see C20), its RESULT on every node is compared',
                 'export of the SPPF by harness/props/forest_common.py (families in OrderedSet insertion order, '
                 'observed priorities, observed `children` order); sharing is unfolded before the model sees it']
+ALLOWED_AXIOMS = []
 ASSUMPTIONS = ['acyclic forests only (for derivation cycles of positive weight the maximum does not exist); '
                'ordered_sets=True (the default)',
                'no tree shaping in the compared grammars (plain rule names, named terminals), so that the tree '
@@ -157,7 +158,7 @@ def correspond(ctx):
         ctx.count('regression-corpus', nontrivial=False)
         if msg:
             ctx.violation('oracle:regression-corpus', w, True, msg)
-    n_gram = ctx.scale(70, 700) * (3 if ctx.widen else 1)
+    n_gram = ctx.scale(70, 400) * (3 if ctx.widen else 1)
     cases, meta = [], []
     det_cases = []
     for gi in range(n_gram):
@@ -203,8 +204,12 @@ def correspond(ctx):
                         det_cases.append((w, ob['shown']))
                     ctx.sample(dict(grammar=g, text=text, lexer=lexer, priority=mode, derivations=nd,
                                     returned=ob['shown']))
-    # ---- the model on the same forests ------------------------------------------------
-    bad, errs = ctx.coq_bad_indices('c05', IMPORTS, 'c05_ok', cases, chunk=150)
+    # ---- the model on the same forests (seeded subset within the Coq budget; the oracle ran on all) ----
+    cap = ctx.scale(650, 6000)
+    if not ctx.widen and len(cases) > cap:
+        idx = sorted(rng.sample(range(len(cases)), cap))
+        cases, meta = [cases[i] for i in idx], [meta[i] for i in idx]
+    bad, errs = ctx.coq_bad_indices('c05', IMPORTS, 'c05_ok', cases, chunk=100)
     for e in errs:
         ctx.violation('correspondence:coq-evaluation', {'no_longer_checks': 'c05 cases', 'detail': e}, False, e)
     for i in bad[:8]:
@@ -231,7 +236,7 @@ def correspond(ctx):
                               'model and lark disagree on %s (diag %s)' % (what, code))
     # ---- determinism: fresh instances, repeated calls, fresh processes with other hash seeds ----
     rng.shuffle(det_cases)
-    det = det_cases[:ctx.scale(150, 1500)]
+    det = det_cases[:ctx.scale(150, 600)]
     for w, shown in det:
         p = fc.mk(w['g'], w['lexer'], 'resolve', w['mode'])
         a = fc.show_tree(p.parse(w['text']))
